@@ -133,42 +133,6 @@ def decodeMeshOnly : DecM Eb.Mesh := do
     let _ ← DecM.lift Leaf.decodeGeometryMetadata
   Eb.decodeConnectivity
 
-/-- **CTIso**: the decoder's corner table (`dc2v`, `dopp`, `numFaces` faces) is isomorphic to the
-    non-degenerate part of the encoder's table `t` under the corner map
-    `3 i + k ↦ Next^k(processed[i])`: opposite corners correspond and two decoder corners carry the same
-    vertex exactly when their images do -/
-def ctIso (t : CT) (processed : Array Nat) (numFaces : Nat) (dc2v dopp : Array Nat) : Bool := Id.run do
-  if numFaces != processed.size then return false
-  if dc2v.size != 3 * numFaces || dopp.size != 3 * numFaces then return false
-  let phi := fun (d : Nat) =>
-    let c := processed[d / 3]!
-    if d % 3 == 0 then c else if d % 3 == 1 then Eb.nextC c else Eb.prevC c
-  -- inverse corner map
-  let mut back := Array.replicate t.numCorners Eb.inv
-  for d in [0:3 * numFaces] do
-    let c := phi d
-    if c ≥ t.numCorners then return false
-    if back[c]! != Eb.inv then return false
-    back := back.set! c d
-  let mut v2e := Array.replicate (dc2v.foldl (fun m v => max m (v + 1)) 0) Eb.inv
-  let mut e2v := Array.replicate t.numVertices Eb.inv
-  for d in [0:3 * numFaces] do
-    let c := phi d
-    -- opposite corners
-    let od := dopp[d]!
-    let oc := t.opp[c]!
-    if od == Eb.inv then
-      if oc != Eb.inv then return false
-    else
-      if od ≥ 3 * numFaces || phi od != oc then return false
-    -- vertices
-    let vd := dc2v[d]!
-    let ve := t.c2v[c]!
-    if vd ≥ v2e.size || ve ≥ e2v.size then return false
-    if v2e[vd]! == Eb.inv then v2e := v2e.set! vd ve else if v2e[vd]! != ve then return false
-    if e2v[ve]! == Eb.inv then e2v := e2v.set! ve vd else if e2v[ve]! != vd then return false
-  return true
-
 def errText : Eb.Err → String
   | .fail => "fail"
   | .ub s => "unsupported ub:" ++ s.replace " " "_"
